@@ -210,6 +210,19 @@ fn reproducer(sig: &str) -> Option<(HostKind, Universe, &'static str)> {
 fn labels(u: &Universe, info: &CaseInfo, host: HostKind) -> Vec<String> {
     let mut l: Vec<String> = uses(u).into_iter().map(|s| format!("uses:{s}")).collect();
     l.push(format!("host:{host:?}"));
+    if u.legacy_mask != 0 && matches!(host, HostKind::Core | HostKind::BridgeBincode | HostKind::BridgeJson) {
+        let (mut legacy, mut command) = (false, false);
+        for (p, c) in u.programs.iter().enumerate() {
+            if sim::app::through_legacy_api(u.legacy_mask, p as u16, c) {
+                legacy = true;
+            } else {
+                command = true;
+            }
+        }
+        if legacy {
+            l.push(if command { "mixed:legacy-api-and-command-api-programs-in-one-core".into() } else { "mixed:legacy-api-programs-on-a-command-host".into() });
+        }
+    }
     if info.drops > 0 {
         l.push("sched:drop".into());
     }
